@@ -28,8 +28,11 @@ RULE = ("correspondence: one driver line per call of inverse_mod / deterministic
         "sign_with_recid / possible_public_pairs_for_signature / d*G on a toy curve; distinct = distinct line; "
         "non-trivial = the model returns a value (not an exception)")
 PARTIAL = [
+    "signing is not total on toy curves (C01_refuted_sign_total; open finding sign-nonce-run-exhausted-typeerror): C01_sign_total_partial "
+    "characterises the only exception; recovery is sound only for abscissae r < p (C01_refuted_recover_sound; open finding "
+    "recover-abscissa-not-below-p): C01_recover_sound_partial, no restriction when n <= p",
     "the group laws (incl. associativity), n prime, n*P = O, the two-roots law of points_for_x are hypotheses of the theorems; "
-    "discharged by kernel computation for three toy curves only (premises M2/M4 for secp256k1/secp256r1)",
+    "discharged by kernel computation for four toy curves only (premises M2/M4 for secp256k1/secp256r1)",
     "independence of nonces for distinct (key, hash) pairs beyond injectivity of the HMAC input is a PRF property of HMAC-SHA256: no theorem",
     "production curves: no extracted-model run in the quick tier (a 256-bit scalar multiplication takes ~20 s in the extracted affine model); "
     "openssl vs pure-Python vs reference arithmetic vs RFC 6979 by direct checks",
@@ -223,7 +226,8 @@ def toy_cases(rng, tier):
         P = c.params()
         n, p = c.n, c.p
         heavy = p.bit_length() > 24 and not thorough       # the extracted affine model costs ~20-60 ms per operation there
-        for _ in range(reps if c.p < 50 else (1 if heavy else 3 * reps)):
+        big = p.bit_length() > 24
+        for _ in range(reps if c.p < 50 else (1 if heavy else (reps if big else 3 * reps))):
             d = rng.randrange(1, n)
             z = rng.choice([rng.randrange(1, n), rng.getrandbits(256) or 1, rng.randrange(1, 4 * n), n])
             yield case_sign(P, d, z, min(n + 2, 60))
@@ -497,7 +501,7 @@ def toy_prop_cases(rng, tier):
         for r in range(1, c.n):
             yield PropCase("toy_noncanonical", {"curve": c.params(), "q": Q, "z": c.n, "r": r, "s": r},
                            (lambda P=c.params(), Q=Q, n=c.n, r=r: chk_toy_noncanonical(P, Q, n, r, r)))
-    lim = 61 if thorough else 11
+    lim = 43 if thorough else 11
     for c in SMALL:
         P = c.params()
         if c.n <= lim:
